@@ -272,3 +272,19 @@ package aggregator
 //@   ensures[too_old]  !old(has2(a, quantized, key)) && !open ==> !has2(a, quantized, key) && numTooOld.count == old(numTooOld.count) + 1
 //@   ensures[others]   forall t int, k bytes :: (t != quantized || k != key) ==> (has2(a, t, k) == old(has2(a, t, k)) && (has2(a, t, k) ==>
 //@        proc2(a, t, k) == old(proc2(a, t, k)) && proc2(a, t, k).vals == old(proc2(a, t, k).vals) && proc2(a, t, k).tss == old(proc2(a, t, k).tss)))
+
+// ---------------------------------------------------------------- constructors (C14): parameters that cannot work are refused
+//@ func (a *Aggregator) setKey() string
+//@   trusted
+//@   modifies a.Key
+//@
+//@ func NewMocked(fun string, matcher matcher.Matcher, outFmt string, cache bool, interval uint, wait uint, dropRaw bool, out chan []byte, inBuf int, now func() time.Time, tick <-chan time.Time) (a *Aggregator, err error)
+//@   property C14
+//@   requires inBuf >= 0
+//@   modifies *
+//@   ensures[usable; C14] err == nil ==> a != nil && a.Interval > 0 && a.Matcher.Regex != "" && a.in != nil && a.aggregations != nil && a.Interval == interval && a.Wait == wait && a.DropRaw == dropRaw
+//@
+//@ func New(fun string, matcher matcher.Matcher, outFmt string, cache bool, interval uint, wait uint, dropRaw bool, out chan []byte) (*Aggregator, error)
+//@   property C14
+//@   modifies *
+//@   ensures[usable; C14] result1 == nil ==> result0 != nil && result0.Interval > 0 && result0.Matcher.Regex != ""
